@@ -1,4 +1,5 @@
 import MakoModel.Namespace.LogInv
+import MakoModel.Generated.NsFlow
 /-!
 # C07 – namespaces and includes reach other templates with the right context and URI
 
@@ -66,7 +67,7 @@ theorem ns_getattr_is_chain (S : TSet) (s : St) (key : Str) (id : Nat) (os : Lis
 /-- non-vacuity: a two-level chain where the name is found at the second level only -/
 example : ∃ (S : TSet) (s : St) (os : List NsObj), Chain s 0 os ∧ os.length = 2 ∧
     chainFind S "foo".toList os = .ok (.code ⟨"/b".toList, .defn "foo".toList⟩ 1) := by
-  refine ⟨⟨[("/a".toList, ⟨[], none, [], [], []⟩), ("/b".toList, ⟨[], none, [], [⟨"foo".toList, false, []⟩], []⟩)], [], [], []⟩,
+  refine ⟨⟨[("/a".toList, ⟨[], none, [], [], []⟩), ("/b".toList, ⟨[], none, [], [⟨"foo".toList, false, []⟩], []⟩)], [], [], [], false, false⟩,
     ⟨[], [⟨[], .tmpl "/a".toList, [], some 1, 0⟩, ⟨[], .tmpl "/b".toList, [], none, 1⟩], [], [], [], []⟩,
     [⟨[], .tmpl "/a".toList, [], some 1, 0⟩, ⟨[], .tmpl "/b".toList, [], none, 1⟩], ?_, rfl, ?_⟩
   · exact .cons rfl rfl (.last rfl rfl)
@@ -91,6 +92,35 @@ theorem import_wins_over_any_context (env : Env) (c c' : Ctx) (x : Str) (d : Lis
     (himp : env.imp = some d) (hx : alookup x d = some v) :
     resolveName env c x = v ∧ resolveName env c' x = v := by
   simp [import_shadows_context env _ x d h1 h2 h3 himp, hx]
+
+/-- the same order in the `strict_undefined` code path: the declaration of a name that `_import_ns` has succeeds whatever
+the context holds (the context is not even consulted) … -/
+theorem import_shadows_context_strict (S : TSet) (fuel : Nat) (tu : Str) (t : Template) (cid : Nat)
+    (skip localDefs : List Str) (d : List (Str × Value)) (x : Str) (v : Value) (acc : List (Str × Nat)) (st : St) (c : Ctx)
+    (hs : S.strict = true) (h1 : x ∉ skip) (h2 : x ∉ localDefs) (h3 : x ∉ t.nsNames) (hc : st.ctxs[cid]? = some c)
+    (hx : alookup x d = some v) (hv : v ≠ .undefined) :
+    declareVars S fuel tu t cid skip localDefs (some d) [x] acc st = .ok acc st := by
+  simp [declareVars, h1, h2, h3, hs, getCtx, hc, hx, hv]
+
+/-- … a name that only the context has is accepted too, and a name neither has raises `NameError` at the declaration -/
+theorem strict_undefined_name_error (S : TSet) (fuel : Nat) (tu : Str) (t : Template) (cid : Nat)
+    (skip localDefs : List Str) (d : List (Str × Value)) (x : Str) (acc : List (Str × Nat)) (st : St) (c : Ctx)
+    (hs : S.strict = true) (h1 : x ∉ skip) (h2 : x ∉ localDefs) (h3 : x ∉ t.nsNames) (hc : st.ctxs[cid]? = some c)
+    (hx : alookup x d = none) :
+    declareVars S fuel tu t cid skip localDefs (some d) [x] acc st =
+      if ctxGet c x = .undefined then .err .name st else .ok acc st := by
+  by_cases h : ctxGet c x = .undefined <;> simp [declareVars, h1, h2, h3, hs, getCtx, hc, hx, h]
+
+/-- named obligation on the regenerated shape of `write_variable_declares` (mako/codegen.py): both the plain and the
+`strict_undefined` branch ask `_import_ns` before the context, and the strict one raises `NameError` -/
+theorem codegen_import_first_obligation :
+    Generated.NsFlow.nonStrictImportFirst = true ∧ Generated.NsFlow.strictImportFirst = true ∧
+    Generated.NsFlow.strictRaisesNameError = true := by decide
+
+example : ∃ (S : TSet) (t : Template) (d : List (Str × Value)) (x : Str) (st : St) (c : Ctx), S.strict = true ∧
+    x ∉ t.nsNames ∧ st.ctxs[0]? = some c ∧ alookup x d = some (.modfn "m".toList) ∧ ctxGet c x = .val (.obj "ctx".toList) :=
+  ⟨⟨[], [], [], [], true, false⟩, ⟨[], none, [], [], []⟩, [("x".toList, .modfn "m".toList)], "x".toList,
+   ⟨[⟨[("x".toList, .obj "ctx".toList)], none, none, none, none⟩], [], [], [], [], []⟩, _, rfl, by decide, rfl, by decide, by decide⟩
 
 /-- a named import `import="x"` binds `x` to `getattr(ns, x)` -/
 theorem import_named_is_getattr (S : TSet) (id : Nat) (x : Str) (d : List (Str × Value)) (s : St) (v : Value)
@@ -205,13 +235,13 @@ theorem star_import_value_partial (S : TSet) (o : NsObj) (u : Str) (t : Template
 example : ∃ (S : TSet) (o : NsObj) (u : Str) (t : Template), o.kind = .tmpl u ∧ setLookup S u = .found t ∧
     (o.callables.map (·.1)).Nodup ∧ t.exports.Nodup ∧ (∀ k ∈ o.callables.map (·.1), k ∉ t.exports) ∧
     o.callables ≠ [] ∧ t.exports ≠ [] :=
-  ⟨⟨[("/b".toList, ⟨[], none, [], [⟨"bar".toList, false, []⟩], []⟩)], [], [], []⟩,
+  ⟨⟨[("/b".toList, ⟨[], none, [], [⟨"bar".toList, false, []⟩], []⟩)], [], [], [], false, false⟩,
    ⟨"n".toList, .tmpl "/b".toList, [("foo".toList, ⟨"/a".toList, .inline "n".toList "foo".toList⟩, 0)], none, 0⟩,
    "/b".toList, _, rfl, rfl, by decide, by decide, by decide, by decide, by decide⟩
 
 /-- the witness of F-C07-1: `<%namespace name="n" file="/b" import="*"><%def name="foo()">…` where `/b` also defines `foo` -/
 def starWitnessSet : TSet :=
-  ⟨[("/b".toList, ⟨[], none, [], [⟨"foo".toList, false, []⟩], []⟩)], [], [], []⟩
+  ⟨[("/b".toList, ⟨[], none, [], [⟨"foo".toList, false, []⟩], []⟩)], [], [], [], false, false⟩
 def starWitnessNs : NsObj :=
   ⟨"n".toList, .tmpl "/b".toList, [("foo".toList, ⟨"/a".toList, .inline "n".toList "foo".toList⟩, 0)], none, 0⟩
 
@@ -310,6 +340,15 @@ theorem include_is_independent (S : TSet) (fuel cid : Nat) (kind : EvKind) (uri 
   simp [includeFile, lookupTemplate, hadj, hfound, getCtx, hc, newCtx, populateSelf, newNs, setCtx, modifySt, hinh,
     modify_append_last, Ctx.clean]
 
+/-- named obligation on the regenerated shape of `_include_file` (mako/runtime.py): `_populate_self_namespace` gets the
+cleaned copy, and **both** call sites of the target's render callable (inside `try:` when the template has an
+`include_error_handler`, and the plain one) pass the context it returned, never the includer's; the keyword arguments
+are computed from the includer's data.  (`include_is_independent` above does not depend on `S.ieh`.) -/
+theorem include_call_sites_obligation :
+    Generated.NsFlow.includeCleansTokens = true ∧ Generated.NsFlow.includeCallSites = 2 ∧
+    Generated.NsFlow.includeCallSitesUseCleanContext = true ∧ Generated.NsFlow.includeKwargsFromIncluderData = true := by
+  decide
+
 /-- for any target (inheriting or not) the chain is built by `_populate_self_namespace` from a *cleaned copy* of the
 includer's context and with no `self` namespace given -/
 theorem include_starts_from_clean_context (S : TSet) (fuel cid : Nat) (kind : EvKind) (uri : Str)
@@ -329,13 +368,13 @@ theorem include_starts_from_clean_context (S : TSet) (fuel cid : Nat) (kind : Ev
   | ok r s' =>
     obtain ⟨callable, lcid⟩ := r
     simp only
-    cases setLookup S callable.tu <;> rfl
+    cases setLookup S callable.tu <;> simp
   | err e s' => rfl
 
 example : ∃ (S : TSet) (s : St) (c : Ctx) (t : Template), s.ctxs[0]? = some c ∧ c.parent = some 1 ∧ c.next = some 2 ∧
     adjustUri "t.html".toList (some "/a/x.html".toList) = some "/a/t.html".toList ∧
     setLookup S "/a/t.html".toList = .found t ∧ t.inherit = none :=
-  ⟨⟨[("/a/t.html".toList, ⟨[], none, [], [], []⟩)], [], [], []⟩, ⟨[⟨[], some 0, some 0, some 1, some 2⟩], [], [], [], [], []⟩,
+  ⟨⟨[("/a/t.html".toList, ⟨[], none, [], [], []⟩)], [], [], [], false, false⟩, ⟨[⟨[], some 0, some 0, some 1, some 2⟩], [], [], [], [], []⟩,
    ⟨[], some 0, some 0, some 1, some 2⟩, ⟨[], none, [], [], []⟩, rfl, rfl, rfl, by decide +kernel, by decide +kernel, rfl⟩
 
 /-! ## URIs are relative to the template they are written in -/
@@ -460,7 +499,7 @@ theorem namespace_unresolvable_raises (S : TSet) (fuel : Nat) (tu : Str) (cid : 
 
 example : ∃ (S : TSet) (raw : Str) (rel : Option Str),
     ∀ u, adjustUri raw rel = some u → ∀ t, setLookup S u ≠ .found t :=
-  ⟨⟨[], [], [], []⟩, [], some "/a/b.html".toList, fun u _ t h => by simp [setLookup, alookup, dirLookup] at h⟩
+  ⟨⟨[], [], [], [], false, false⟩, [], some "/a/b.html".toList, fun u _ t h => by simp [setLookup, alookup, dirLookup] at h⟩
 
 /-! ## which URIs are resolvable: normalisation -/
 
@@ -484,7 +523,7 @@ theorem lookup_normalised_partial (S : TSet) (u u' : Str) (guard : S.coll = [])
   simp only [setLookup, guard, alookup]
   exact h S.dirs hsrc
 
-def putStringWitness : TSet := ⟨[("/x.html".toList, ⟨[], none, [], [], []⟩)], ["/r".toList], [], []⟩
+def putStringWitness : TSet := ⟨[("/x.html".toList, ⟨[], none, [], [], []⟩)], ["/r".toList], [], [], false, false⟩
 
 /-- `lookup_normalised_counterexample` (F-C07-5): `put_string` entries are matched by the exact string, so the URI
 `adjust_uri` produces for `../x.html` written in `/sub/a.html` is not found although `/x.html` is there -/
@@ -498,7 +537,7 @@ theorem lookup_normalised_counterexample :
 
 example : ∃ (S : TSet) (u u' : Str), S.coll = [] ∧ u ≠ u' ∧ (∀ d ∈ S.dirs, uriToSrc d u = uriToSrc d u') ∧
     templateCheck u = templateCheck u' ∧ ∃ t, setLookup S u = .found t :=
-  ⟨⟨[], ["/r".toList], [("/r/x.html".toList, ⟨[], none, [], [], []⟩)], []⟩, "/sub/../x.html".toList, "/x.html".toList,
+  ⟨⟨[], ["/r".toList], [("/r/x.html".toList, ⟨[], none, [], [], []⟩)], [], false, false⟩, "/sub/../x.html".toList, "/x.html".toList,
    rfl, by decide, by decide +kernel, by decide +kernel, ⟨[], none, [], [], []⟩, by decide +kernel⟩
 
 /-! ## defs written inside `<%namespace>` and `import=` (F-C07-2, repaired) -/
@@ -511,8 +550,7 @@ theorem inline_def_runs (S : TSet) (fuel : Nat) (tu nsn dn : Str) (cid : Nat) (t
     (hitems : alookup dn tag.inline = some items) :
     execCode S (fuel + 1) ⟨tu, .inline nsn dn⟩ cid [] =
       (do
-        let nsvars ← fetchNsVars S fuel tu t cid
-          ((freeNames t items).filter fun x => x ∉ tag.inline.map (·.1) ∧ x ∈ t.nsNames) []
+        let nsvars ← declareVars S fuel tu t cid [] (tag.inline.map (·.1)) none (sortNames (freeNames t items)) []
         execItems S fuel ⟨tu, t, cid, [], none, nsvars, false, tag.inline.map (·.1), some nsn⟩ items) := by
   funext s
   simp only [execCode, ht, htag, hitems]
@@ -530,7 +568,7 @@ def s (x : String) : Str := x.toList
 def importNsWitness : TSet :=
   ⟨[(s "/a", ⟨[], none, [⟨s "n", .file (s "/b"), false, some [['*']], [(s "foo", [.name (s "x") false])]⟩], [],
       [.nscall (.ns (s "n")) (s "foo")]⟩),
-    (s "/b", ⟨[], none, [], [], []⟩)], [], [], []⟩
+    (s "/b", ⟨[], none, [], [], []⟩)], [], [], [], false, false⟩
 
 /-- non-vacuity: it now renders the context value -/
 example : (match render importNsWitness 20 (s "/a") [(s "x", .obj (s "X"))] St.empty with
@@ -557,7 +595,7 @@ def baseLocalWitness : TSet :=
   ⟨[(s "/d/a", ⟨[], some (s "/b/base"), [], [], [.text (s "x")]⟩),
     (s "/b/base", ⟨[], none, [⟨s "n", .plain, false, none, [(s "foo", [.apiTmpl .loc (s "q")])]⟩], [],
       [.nscall (.ns (s "n")) (s "foo")]⟩),
-    (s "/d/q", ⟨[], none, [], [], []⟩), (s "/b/q", ⟨[], none, [], [], []⟩)], [], [], []⟩
+    (s "/d/q", ⟨[], none, [], [], []⟩), (s "/b/q", ⟨[], none, [], [], []⟩)], [], [], [], false, false⟩
 
 /-- `local_api_relative_to_module_counterexample` (F-C07-3): the guard fails for the defs written inside a `<%namespace>` of
 the base-most template of an inheritance chain: `_inherit_from` generates that template's namespaces with the
@@ -571,7 +609,7 @@ theorem local_api_relative_to_module_counterexample :
 example : ∃ (S : TSet) (env : Env) (s : St) (c : Ctx) (l : Nat) (o : NsObj), s.ctxs[env.ctx]? = some c ∧
     resolveName env c sLocal = .nsref l ∧ s.nss[l]? = some o ∧
     nsGetattr S s l "get_template".toList = .ok .other ∧ o.turi = some env.tu :=
-  ⟨⟨[], [], [], []⟩, ⟨s "/a", ⟨[], none, [], [], []⟩, 0, [], none, [], true, [], none⟩,
+  ⟨⟨[], [], [], [], false, false⟩, ⟨s "/a", ⟨[], none, [], [], []⟩, 0, [], none, [], true, [], none⟩,
    ⟨[⟨[], some 0, some 0, none, none⟩], [⟨s "self:/a", .tmpl (s "/a"), [], none, 0⟩], [], [], [], []⟩,
    ⟨[], some 0, some 0, none, none⟩, 0, ⟨s "self:/a", .tmpl (s "/a"), [], none, 0⟩, rfl, by decide +kernel, rfl,
    by decide +kernel, rfl⟩
@@ -587,7 +625,7 @@ theorem ns_member_reachable_counterexample (S : TSet) (st : St) (id : Nat) (key 
 
 /-- concretely `name`: the template at `/t` defines it, the chain lookup would find it, `getattr` does not -/
 theorem ns_member_reachable_counterexample_name :
-    let S : TSet := ⟨[(s "/t", ⟨[], none, [], [⟨s "name", false, []⟩], []⟩)], [], [], []⟩
+    let S : TSet := ⟨[(s "/t", ⟨[], none, [], [⟨s "name", false, []⟩], []⟩)], [], [], [], false, false⟩
     let o : NsObj := ⟨s "n", .tmpl (s "/t"), [], none, 0⟩
     let st : St := ⟨[⟨[], none, none, none, none⟩], [o], [], [], [], []⟩
     chainFind S (s "name") [o] = .ok (.code ⟨s "/t", .defn (s "name")⟩ 0) ∧ nsGetattr S st 0 (s "name") = .ok .other := by
@@ -599,7 +637,7 @@ def moduleIdWitness : TSet :=
   ⟨[(s "/main", ⟨[], none, [], [], [.incl (s "/a-b") [], .incl (s "/a_b") []]⟩),
     (s "/a-b", ⟨[], none, [⟨s "n", .file (s "/t1"), false, none, []⟩], [], [.nscall (.ns (s "n")) sBody]⟩),
     (s "/a_b", ⟨[], none, [⟨s "n", .file (s "/t2"), false, none, []⟩], [], [.nscall (.ns (s "n")) sBody]⟩),
-    (s "/t1", ⟨[], none, [], [], [.text (s "[t1]")]⟩), (s "/t2", ⟨[], none, [], [], [.text (s "[t2]")]⟩)], [], [], []⟩
+    (s "/t1", ⟨[], none, [], [], [.text (s "[t1]")]⟩), (s "/t2", ⟨[], none, [], [], [.text (s "[t2]")]⟩)], [], [], [], false, false⟩
 
 /-- `namespace_of_tag_counterexample` (F5): `context.namespaces` is keyed by the module's `__name__`, and
 `re.sub(r"\W", "_", uri)` maps `/a-b` and `/a_b` to the same name: the second template gets the first one's `n` -/
@@ -664,7 +702,7 @@ def sameRelativeWitness : TSet :=
     (s "/d1/c", ⟨[], none, [], [], [.apiNs .loc (s "helper") sBody]⟩),
     (s "/d2/c", ⟨[], none, [], [], [.apiNs .loc (s "helper") sBody]⟩),
     (s "/d1/helper", ⟨[], none, [], [], [.text (s "[h1]")]⟩), (s "/d2/helper", ⟨[], none, [], [], [.text (s "[h2]")]⟩)],
-   [], [], []⟩
+   [], [], [], false, false⟩
 
 /-- non-vacuity, on a whole render: the same relative string from two directories reaches two templates -/
 example : output (render sameRelativeWitness 40 (s "/main") [] St.empty).st = s "[h1][h2]" := by decide +kernel
@@ -680,7 +718,7 @@ example : ∃ c : Ctx, (c.parent = none ∧ c.next = none) ∧ c.self ≠ none :
 def getNsWitness : TSet :=
   ⟨[(s "/a", ⟨[], some (s "/base"), [], [], [.apiNs .loc (s "/t") sBody]⟩),
     (s "/base", ⟨[], none, [], [⟨s "k", true, [.text (s "[base.k]")]⟩], [.text (s "<"), .nscall .next sBody, .text (s ">"), .block (s "k")]⟩),
-    (s "/t", ⟨[], none, [], [⟨s "k", true, [.text (s "[t.k]")]⟩], [.text (s "[t:"), .block (s "k"), .text (s "]")]⟩)], [], [], []⟩
+    (s "/t", ⟨[], none, [], [⟨s "k", true, [.text (s "[t.k]")]⟩], [.text (s "[t:"), .block (s "k"), .text (s "]")]⟩)], [], [], [], false, false⟩
 
 /-- `get_namespace_context_counterexample` (F-C07-7): called in a template that inherits, the target's code sees the
 caller's `parent`: the target's block `k` is skipped because the caller's parent has a block `k` -/
